@@ -190,10 +190,21 @@ func c04Check(env *core.Env, cc core.Case) core.Verdict {
 	}
 	args := []string{"-d", root}
 	if c.CfgFlag != "" {
-		args = append(args, "-f", c.CfgFlag)
+		switch c.Seed % 3 {
+		case 0:
+			args = append(args, "-f", c.CfgFlag)
+		case 1:
+			args = []string{"-f", c.CfgFlag, "-d", root} // the order of the two flags is not an input
+		default:
+			args = []string{"--configuration=" + c.CfgFlag, "--directory", root}
+		}
 	}
 	args = append(args, "regex", "generate", "-")
-	gen := sut.Cmd{Bin: env.Bin, Args: args, Stdin: []byte(program), Dir: root}
+	cwd := root
+	if c.Seed%4 >= 2 {
+		cwd = filepath.Dir(root) // started from outside the root
+	}
+	gen := sut.Cmd{Bin: env.Bin, Args: args, Stdin: []byte(program), Dir: cwd}
 	injLog := filepath.Join(filepath.Dir(root), "inject.log")
 	if strings.HasPrefix(c.CfgName, "unreadable") {
 		// every read of the configuration file fails (the statement: an unreadable file means nothing is inserted)
@@ -404,6 +415,9 @@ func c04Gen(r *rand.Rand) *c04Case {
 				sb.WriteByte('_')
 			case k == 3 && i > 0 && i < n-1:
 				sb.WriteByte(' ')
+				if r.Intn(6) == 0 {
+					sb.WriteByte(' ') // adjacent blanks: each stands for white space, with room for evasion text between them
+				}
 			default:
 				sb.WriteByte(letters[r.Intn(len(letters))])
 			}
